@@ -286,6 +286,10 @@ Theorem C01_mutation_undeclared_def : forall cfg s f g t ld k,
 Proof. exact rule_undeclared_def. Qed.
 Print Assumptions C01_mutation_undeclared_def.
 
+(* Whether a Def-expand group equals the expansion of its definition (up to sibling order, also when the substituted
+   value reorders the placeholder tag against a similarly spelled sibling) is decided by the definition layer (C09) and
+   enters as the fact [tf_def_contents]; at C01 level it is covered by the conforming generator
+   (rule v_defexpand_placeholder_sibling) -- tested, not proved here. *)
 Theorem C01_mutation_altered_def_expand : forall cfg s f g gch t ld k,
   phase2_clean cfg s f -> phase3_total cfg f ->
   In g (f :: sub_groups f) -> In (FGroup gch) g -> In t (tags_of gch) ->
@@ -356,6 +360,13 @@ Example C01_repeated_group_regression :
   reports cfg830 (fprint ex_f2) ex_f2 (spec_code R_repeated).
 Proof. exact ex_f2_reported. Qed.
 Print Assumptions C01_repeated_group_regression.
+
+(* the theorem above speaks of ANY group of the annotation; instances where the group holding the repeat is the
+   only member of its enclosing group(s): "Sensory-event,((Red,Red))", "Sensory-event,(((Red,Blue),(Blue,Red)))" *)
+Example C01_repeated_in_singleton_nesting :
+  reports cfg830 (fprint ex_nested_rep1) ex_nested_rep1 (spec_code R_repeated)
+  /\ reports cfg830 (fprint ex_nested_rep2) ex_nested_rep2 (spec_code R_repeated).
+Proof. exact ex_nested_repeats. Qed.
 
 (* Duration / Delay group shape (g is a top-level group whose first Duration/Delay tag is t) *)
 Theorem C01_mutation_duration_other_tags : forall cfg s f g t i u,
